@@ -21,6 +21,9 @@ structure YMD where
   day : Int
   deriving DecidableEq, Repr, Inhabited
 
+/-- `IsoDayOfWeek(n)`: the IntEnum lookup succeeds for 0 … 7 (NONE, MONDAY … SUNDAY) and raises ValueError otherwise -/
+def isoDayOfWeek (n : Int) : R Int := if 0 ≤ n ∧ n ≤ 7 then .ok n else .error .valueError
+
 /-- Python `1 << s` / `x >> s` with a run-time shift count: `ValueError` for a negative count. -/
 def pyShiftCount (s : Int) : R Nat := if s < 0 then .error .valueError else .ok s.toNat
 
